@@ -40,7 +40,7 @@ class Ctx:
         self.extra.setdefault("per_config", {})[self.config] = {"obligations": self.obligations, "discharged": self.discharged}
         self.config = cfg
         self.prog = prog
-        for k in ("_fv", "_ens", "_men", "_cs", "_cs_inprogress", "_atomic"):   # per-program caches (keyed by def id)
+        for k in ("_fv", "_ens", "_men", "_cs", "_cs_inprogress", "_atomic", "_so"):   # per-program caches (keyed by def id)
             self.__dict__.pop(k, None)
         if cfg not in self.configs:
             self.configs.append(cfg)
